@@ -23,6 +23,7 @@ var c07Cases int
 
 func init() {
 	register("C07", &Prop{Gen: c07Gen, Run: c07Run, Init: func() {
+		caseTimeout = 20 * time.Second
 		var err error
 		c07Srv, err = busStart("R", "", nil)
 		if err != nil {
@@ -112,12 +113,15 @@ func c07Run(c string) string {
 		return "SETUP group"
 	}
 	log := &vlog{entered: make(chan string, 1), release: make(chan struct{})}
+	if strings.Contains(";"+strings.Fields(c)[0]+";", ";L;") {
+		log.slowStopMs = 40 // clients that need a moment to wind down
+	}
 	m := client.NewManager(nc, newVClientCtor(log), []string{"vparent"})
 	done := make(chan error, 1)
 	go func() { done <- m.Run() }()
 	zs := 0
 	probes := 0
-	budget := time.Now().Add(7 * time.Second) // all waiting of a case together stays below the per-case watchdog
+	budget := time.Now().Add(12 * time.Second) // all waiting of a case together stays below the per-case watchdog (20 s here)
 	settle := func(limit time.Duration) {
 		if rem := time.Until(budget); rem < limit {
 			limit = rem
@@ -172,7 +176,7 @@ func c07Run(c string) string {
 	}
 	var acc []string
 	for _, op := range strings.Split(strings.Fields(c)[0], ";") {
-		if op == "S" || op == "X" { // settled / racing history (generator's label, used by the oracle)
+		if op == "S" || op == "X" || op == "L" { // settled / racing history (generator's label, used by the oracle); slow-stopping clients
 			continue
 		}
 		if op == "w" {
@@ -241,6 +245,9 @@ func c07Gen(r *rand.Rand, n int, tier string) []string {
 		ops := []string{"X"}
 		if settled {
 			ops[0] = "S"
+		}
+		if r.Intn(4) == 0 {
+			ops = append(ops, "L")
 		}
 		type edge struct{ up, down, typ string }
 		var edges []edge
